@@ -228,6 +228,17 @@ func c04Scenario(c *Ctx) {
 			return tx
 		}
 		base := pool[c.Draw("gen", len(pool))]
+		if c.Draw("v27", 8) == 7 && base.Type() != params.BoxTx && len(base.Sigs()) == 1 && base.Sigs()[0][64] <= 1 {
+			// the same signature with the recovery byte written the Ethereum way (27/28): other hash, same payload
+			fl := base.VerifFields()
+			fl.Sigs = [][]byte{common.CopyBytes(fl.Sigs[0])}
+			fl.Sigs[0][64] += 27
+			v := types.VerifNewTx(fl)
+			pool = append(pool, v)
+			c.Fault("recovery_byte_plus_27")
+			w.kind[v.Hash()] = "recovery-byte+27"
+			return v
+		}
 		switch c.Draw("gen", 6) {
 		case 5:
 			// the same authorised content with one more signature appended by a bystander:
